@@ -258,9 +258,48 @@ def private_call_sites(prog: Program, f: FunctionInfo) -> list[tuple[FunctionInf
     for n in idx.get(f.name, []):
         par = parent(n)
         if not (isinstance(par, ast.Call) and par.func is n):
-            return None
+            via = _table_call_sites(prog, n, idx)
+            if via is None:
+                return None
+            out += via
+            continue
         g = prog.fn_containing(n)
         if g is None:
             return None
         out.append((g, par))
+    return out or None
+
+
+def _table_call_sites(prog: Program, ref: ast.AST, idx: dict) -> list[tuple[FunctionInfo, ast.Call]] | None:
+    """A function named in a module-level table `T = ((key, fn), ...)` that is only ever walked by `for key, var in T:` loops calling `var(...)`:
+    those calls are its call sites.  Anything else done with the table (indexing, passing it on) gives None."""
+    row = parent(ref)
+    table = parent(row) if isinstance(row, (ast.Tuple, ast.List)) else None
+    if not (isinstance(row, (ast.Tuple, ast.List)) and isinstance(table, (ast.Tuple, ast.List))):
+        return None
+    st = parent(table)
+    if not (isinstance(st, (ast.Assign, ast.AnnAssign)) and isinstance(parent(st), ast.Module)):
+        return None
+    tgt = st.targets[0] if isinstance(st, ast.Assign) else st.target
+    if not isinstance(tgt, ast.Name):
+        return None
+    col = next(i for i, e in enumerate(row.elts) if e is ref)
+    mod_tree = parent(st)
+    uses = [u for u in ast.walk(mod_tree) if isinstance(u, ast.Name) and u.id == tgt.id and isinstance(u.ctx, ast.Load)]
+    out: list[tuple[FunctionInfo, ast.Call]] = []
+    for u in uses:
+        loop = parent(u)
+        if not (isinstance(loop, ast.For) and loop.iter is u and isinstance(loop.target, ast.Tuple) and len(loop.target.elts) == len(row.elts)
+                and isinstance(loop.target.elts[col], ast.Name)):
+            return None
+        var = loop.target.elts[col].id
+        g = prog.fn_containing(u)
+        if g is None:
+            return None
+        for x in ast.walk(loop):
+            if isinstance(x, ast.Name) and x.id == var and isinstance(x.ctx, ast.Load):
+                px = parent(x)
+                if not (isinstance(px, ast.Call) and px.func is x):
+                    return None
+                out.append((g, px))
     return out or None
